@@ -26,7 +26,14 @@ PathConfigs == <<
    [proj |-> <<>>,                    art |-> "none",               file |-> <<>>],
    [proj |-> <<>>,                    art |-> "none",               file |-> <<"app">>],
    [proj |-> <<"src", "components">>, art |-> <<"src", "componentsX">>, file |-> <<"src", "components">>],
-   [proj |-> <<"src">>,               art |-> <<"src", "components">>, file |-> <<"src">>]
+   [proj |-> <<"src">>,               art |-> <<"src", "components">>, file |-> <<"src">>],
+   \* directory names that begin with a dot (added after seeded/C28-dot-prefix-check-on-string: "does the relative path go up"
+   \* must be decided on path components, not on the first character)
+   [proj |-> <<"src">>,               art |-> <<"src", ".generated">>, file |-> <<"src">>],
+   [proj |-> <<"src">>,               art |-> <<".gen">>,           file |-> <<>>],
+   [proj |-> <<"src">>,               art |-> <<"..gen", "out">>,   file |-> <<>>],
+   [proj |-> <<".app">>,              art |-> "none",               file |-> <<".app", "x">>],
+   [proj |-> <<"src">>,               art |-> "none",               file |-> <<"src", ".hidden">>]
 >>
 Modules == {"esmodule", "commonjs"}
 Shapes  == {"call", "nocall"}        \* iso(`...`)(fn)  /  iso(`...`)
